@@ -112,7 +112,20 @@ pub fn c14_wg(ctx: &mut Ctx, log: &mut Log, im: &mut Impl, or: &mut Oracle) {
         let len = 1 + rng.usize_below(10);
         for step in 0..len + n + 1 {
             let do_poll = alive.is_empty() || rng.chance(1, 2) || step >= len;
-            if do_poll && (step < len || alive.is_empty()) {
+            if !alive.is_empty() && step < len && rng.chance(1, 4) {
+                // a token drop forced into the poll, between upgrade and register (1) or between register and the drop of the temporary Arc (2)
+                let t = *rng.pick(&alive); let point = 1 + rng.below(2);
+                let o = ex(log, im, &format!("g.pollh {point} {t}"));
+                let w: usize = field(&o, "wakes").and_then(|x| x.parse().ok()).unwrap_or(0);
+                if field(&o, "hook") == Some("fired") { alive.retain(|&x| x != t); or.count(&format!("hooked_drop_at_point_{point}")); }
+                if o.starts_with("ready") { if !alive.is_empty() { or.fail(format!("shutdown future completed while {} token(s) are alive", alive.len()), log.replay_block(), "C14:early-completion".into()); } last_pending_wakes = None; }
+                else {
+                    // Pending: if that drop was the last one, the task must have been woken for the completion (by the poll's own temporary Arc going away)
+                    if alive.is_empty() && w <= last_pending_wakes.unwrap_or(0) && w == 0 { or.fail(format!("the last token was dropped inside the poll (point {point}) which returned Pending, and the task was never woken"), log.replay_block(), "C14:lost-wake-in-window".into()); }
+                    if alive.is_empty() { let before = last_pending_wakes.unwrap_or(0); if w <= before { or.fail(format!("last drop in the window at point {point}: no wake-up after the registration"), log.replay_block(), "C14:lost-wake-in-window".into()); } }
+                    last_pending_wakes = Some(w);
+                }
+            } else if do_poll && (step < len || alive.is_empty()) {
                 let o = ex(log, im, "g.poll");
                 let w: usize = field(&o, "wakes").and_then(|x| x.parse().ok()).unwrap_or(0);
                 if o.starts_with("ready") { if !alive.is_empty() { or.fail(format!("shutdown future completed while {} token(s) are alive", alive.len()), log.replay_block(), "C14:early-completion".into()); } last_pending_wakes = None; }
